@@ -55,10 +55,11 @@ CHECKS = {
    text="After every insert/remove/find/lower_bound/walk/clear the status, removed element, size and (white-box) the whole tree (page ids, values, children), allocation events, height and (NDEBUG builds) comparator-call count are compared with the model, "
         "on page sizes 64/128/256 (MAX_HEIGHT 24) and 4096 (default), key orders random/ascending/descending/zig-zag/drain-to-minimum. Theorems (sorted-set refinement for insert and remove, WF invariant, height bound, O(log n) comparisons, clear) are being added.",
    note="Known finding: small pages with the default maximum height exceed it (listed in known_findings.json).", ref="§5 C01"),
- "C02": dict(cat="translation_validation", tech="Lean 4 executable model of iterator paths, lower_bound, increment, remove-next validated against the implementation with exhaustive probe sweeps; theorems in progress",
-   text="Every few operations the harness sweeps lower_bound over every key in/between/below/above the stored keys (exact comparator) and every prefix (wildcard comparator), iterator equality and a full walk; every remove reports its next; "
-        "the dereferenced element (API) and the index path per level (white-box) are compared with the model. Theorems (lower_bound = first not-less, increment walks in order, equality iff same position, remove-next = successor) are being added.",
-   note="Search comparator compatibility (monotone) is the API's contract.", ref="§5 C02"),
+ "C02": dict(cat="proof", tech="Lean 4 theorems (iterator paths: begin, increment, lower_bound with the ancestor fallback, equality; find in C01) by induction over the tree, plus correspondence with exhaustive probe sweeps",
+   text="Proved for every well-formed tree of every valid geometry: lower_bound_spec (dereferences to the first element not less than the key under any compatible comparator — the first of the matching run for wildcards — or end; valid iterator), "
+        "begin_spec, increment_walks_inorder (next element in order, end after the last, validity preserved), valid_iter_eq_iff_same_element and iter_equals_iff (equal exactly at the same position; all end iterators equal), lower_bound_comparisons (O(log n)). "
+        "find_refines is in C01. Tie: lower_bound sweeps over every key in/between/below/above the stored keys with exact and wildcard comparators, iterator equality, full walks and every remove's next, compared as dereferenced element and index path per level.",
+   note="remove_next_is_successor (the `next` of remove) is being proved with the removal theorems; until then that clause rests on the correspondence. Comparator argument order and user data are checked by the harness on the implementation.", ref="§5 C02"),
  "C10": dict(cat="translation_validation", tech="Lean 4 executable model of the C scans (index ranges) and Lean transcription of the C++17 rules, both validated: model vs implementation, rules vs libstdc++, implementation vs libstdc++; theorems in progress",
    text="Every string over {/ . a} up to length 9 (12 thorough): the eight views as (offset,length), all queries and the component iterator frames equal the model's; the harness judges each answer against libstdc++ and checks slices; ASan with exact-size inputs observes that nothing outside the string is read.",
    note="POSIX build only; libstdc++ 12 stands in for the C++17 model; out-of-bounds reads are runtime-checked.", ref="§5 C10"),
@@ -68,6 +69,10 @@ CHECKS = {
  "C12": dict(cat="translation_validation", tech="Lean 4 executable model of join / lexically_relative (over the component-iterator model) / preferred, validated against implementation and libstdc++ on all pairs of short strings; theorems in progress",
    text="All pairs of strings over {/ . a} up to length 5 (6 thorough) plus random pairs and NULL arguments: text (or NULL) equals the model's; join judged against operator/ text, relative against libstdc++ (NULL iff empty, same path); ASan with exact-size arguments.",
    note="POSIX build.", ref="§5 C12"),
+ "C14": dict(cat="translation_validation", tech="Lean 4 executable model of zix_copy_file over an abstract file system with an arbitrary per-call fault oracle, validated against the implementation with every system call interposed (linker --wrap); theorems in progress",
+   text="Scenarios: source kind x size around the block size x destination state (absent, file, same path, hard link, symlink, directory) x option x kernel copy available/EXDEV/EINVAL-after-partial x injected errno or short count at every call position x block refusal. "
+        "Compared: status, source intact, destination bytes, descriptor balance (API) and the system-call trace (white-box). Theorems (SUCCESS implies complete copy for every fault oracle, source untouched, no-fault success, EXCL, descriptors closed) are being added.",
+   note="Abstract POSIX layer (open/fstat/ftruncate/read/write/copy_file_range/fdatasync/close with errno); no concurrent modification; durability after power loss not modelled.", ref="§5 C14"),
 }
 
 NOT_YET = "check not built yet in this revision (framework under construction; see DESIGN.md §8)"
